@@ -21,8 +21,15 @@ fn main() {
         println!("table {} {:?}\n{}", t.name, t.cols.iter().map(|c| format!("{} {:?}", c.name, c.ty)).collect::<Vec<_>>(), fmt_rows(&t.rows, 50));
     }
     let mut ctx = query_engine::ExecutionContext::new();
+    // PROBE_PARQUET=1: register the tables as Parquet (one file, chunk statistics)
+    let pq_dir = TempDir::new("probe");
     for (i, t) in c.tables.iter().enumerate() {
-        register_mem(&mut ctx, t, c.cuts.get(i).map(|v| v.as_slice()).unwrap_or(&[]));
+        if std::env::var("PROBE_PARQUET").is_ok() {
+            let layout = ParquetLayout { file_cuts: vec![], row_group_size: 1 << 20, stats: 1, dictionary: true };
+            register_parquet(&mut ctx, t, pq_dir.path(), &layout).expect("register parquet");
+        } else {
+            register_mem(&mut ctx, t, c.cuts.get(i).map(|v| v.as_slice()).unwrap_or(&[]));
+        }
     }
     match ctx.logical_plan(&sql) {
         Ok(p) => println!("--- bound plan\n{}", p),
